@@ -85,12 +85,23 @@ func C20(o *world.Obs) *Result {
 		// once it has its response, e.g. an http.Client with a Timeout, would otherwise never
 		// get its entries refreshed)
 		deadline := c.StartNs + T
-		if !c.HasDeadline {
-			r.Fail("C20", "bg-no-deadline", ex.Idx, "background request context has no deadline; %s", SummarizeExchange(o, ex))
-		} else if c.DeadlineNs > deadline {
+		// Judged on behaviour - when the request's context actually ends - not on whether the
+		// context carries a deadline: a timer that cancels the context at start + T is as good
+		// as context.WithTimeout.
+		if c.HasDeadline && c.DeadlineNs > deadline {
+			// (a deadline that lies beyond start + T says outright that the request may run longer)
 			r.Fail("C20", "bg-deadline-late", ex.Idx, "background request deadline at %s, later than start+timeout %s; %s", secs(c.DeadlineNs), secs(deadline), SummarizeExchange(o, ex))
-		} else if c.DeadlineNs != deadline {
-			r.Fail("C20", "bg-deadline-wrong", ex.Idx, "background request deadline at %s, want start+timeout = %s; %s", secs(c.DeadlineNs), secs(deadline), SummarizeExchange(o, ex))
+		}
+		if c.StallAt > 0 && c.Completed && c.Kind == "resp" && c.EndNs < deadline {
+			// the reply's header arrived in time and its body stalls: reading it is part of the
+			// background request, which ends at the timeout
+			r.Label("bg-body-stalls")
+			switch un := c.BodyUnblockedNs.Load(); {
+			case un < 0 && !c.BodyClosed.Load():
+				r.Fail("C20", "bg-body-never-cancelled", ex.Idx, "the body of the background reply s%d stalls and was neither cancelled nor closed: the background request outlives its timeout; %s", c.Serial, SummarizeExchange(o, ex))
+			case un > deadline:
+				r.Fail("C20", "bg-body-cancelled-late", ex.Idx, "the stalled body of the background reply s%d was released at %s, after start+timeout %s; %s", c.Serial, secs(un), secs(deadline), SummarizeExchange(o, ex))
+			}
 		}
 		slow := c.Reply != nil && (c.Reply.Kind == "hang" || c.Reply.LatencyNs > T)
 		if slow {
